@@ -133,7 +133,7 @@ HINT_WF = r'''
     }
 '''
 HINT_RECV = r'''proof {
-        assert(msg == wm && reader.pending() == wrest);
+        assert(msg == wm && reader.pending() == wrest);   // #obl:recv.reads_exactly_the_frame_that_was_sent
         assert forall|m: NetworkMessage<T>, d: ReceiverEndpoint, rest: Seq<u8>| p0 == #[trigger] (frame(m, d) + rest) && enc_msg(m).len() <= u32::MAX
             && d.coord.block_id == coord.coord.block_id && d.coord.host_id == coord.coord.host_id
             implies msg == m && header.replica_id == d.coord.replica_id && header.sender_block_id == d.prev_block_id
